@@ -624,7 +624,7 @@ def main(tier):
 
     B.clean_work(PROP)
     rnd = random.Random(run.seed * 7919 + 11)
-    n = 100 if tier == "quick" else 1500
+    n = 80 if tier == "quick" else 1500
     per = 3 if tier == 'quick' else 5
     jobs = [(k, spec, toggles, ([i for i, x in enumerate(spec['sources']) if x['name'] == miss[0]][0], miss[1]) if miss else None)
             for k, (spec, toggles, miss) in enumerate(corpus())]
